@@ -45,7 +45,7 @@ def shards(tier, seed):
     out = []
     for py in bare_interpreters():
         for path in ("popen", "via", "socket"):
-            out.append({"kind": "dynamic", "python": py, "path": path, "n": 8 if tier == "quick" else 150})
+            out.append({"kind": "dynamic", "python": py, "path": path, "n": 8 if tier == "quick" else 1500})
     for py in bare_interpreters():
         out.append({"kind": "sweep", "python": py})
     out.append({"kind": "standalone", "pythons": bare_interpreters()})
